@@ -5,6 +5,10 @@ HERE = os.path.dirname(os.path.dirname(os.path.abspath(__file__)))
 ALL = ["C%02d" % i for i in range(1, 21)]
 # id -> (technique, level text, level note, design ref)
 CHECKS = {
+ "C20": ("bounded-exhaustive enumeration of (authorized_keys subset, layout, client key) handshakes and of exec command lines from a grammar over the option vocabulary, against the real SSH listener started through the daemon entry point; per-session oracle on greeting, stdout bytes, exit status, canary directory and a marker script",
+         "16 key subsets x 3 file layouts x 6 client keys (4 listable types, unlisted, none) + the anonymous listener as real SSH handshakes; every command line 'rsync w1..wk' with k<=4 (thorough 5) over 11 tokens (--server, --daemon, --sender, -e/--rsh marker script, -vlogDtpr, ., canary paths, host:path, rsync:// URL) = 16 105 exec sessions through maincmd.Main's real session dispatch, plus shell/subsystem/pty/env requests and foreign channel types: greeting iff --server --daemon, otherwise no stdout byte, non-zero status, canary untouched, marker never executed",
+         "key material is not an explored dimension; landlock is neutralised in the worker; the authorised listener's dispatch is driven (the anonymous one shares the code and needs Linux namespaces to start)",
+         "DESIGN.md §5 C20"),
  "C08": ("exhaustive single-field fault enumeration on typed field sequences of valid sessions (every boundary value at every protocol field, every known option on every option line, truncation at every byte offset) against a long-lived daemon and against the library client, each in journalled worker processes; a canonical valid session after every hostile one",
          "6 daemon-session shapes x every field x its type's boundary set (ints, flag bits, names/rules/link targets with inconsistent and negative lengths, greeting/module/argument lines incl. every option the parser's help texts mention and the exit-prone ones) x truncation at every offset (~7.5k hostile sessions quick; thorough adds byte substitutions at every offset and adjacent-field pairs), and ~2.5k hostile-server streams against the client (file-list and response fields, payload truncations, malformed frame headers): the worker process must survive and the same daemon must still serve the canonical pull correctly",
          "count-like fields < 2^20 unless negative, peers close their connection, stalled sessions are abandoned after 5 s without verdict (the guarantee excludes stalls), out-of-memory is inconclusive; SSH exec lines are C20's subject",
